@@ -211,13 +211,22 @@ def run_case(rec, k):
                     raise MachineryError(f"unit table disagrees with Units.tla on {ru}->{lu}: {conv} vs {rat(o['conv'])}")
         if c["op"] in ("lt", "le", "gt", "ge", "eq", "ne") and conv is not None and c["rdt"][0] == "f" and c["ldt"][0] == "f" and k % 2 == 1:
             # right operand = left operand expressed in the right unit, scaled by 0.93 / 1 / 1.07 per element
-            scale = [F(93, 100), F(1), F(107, 100), F(1)]
+            scale = [F(93, 100), F(1), F(107, 100), F(999999, 1000000)]      # also values that agree to six digits only
             lb = bcast_vals(lvals, c["ls"], c["rs"]) if SHAPE[c["rs"]] and len(lvals) <= len(rvals) and o.get("shape") == c["rs"] else None
             if lb is not None and c["rdt"] == "f8":
                 rvals = [v / conv * scale[i % 4] for i, v in enumerate(lb)]
                 rarr = np.array([float(v) for v in rvals], dtype=NPDT[c["rdt"]]).reshape(SHAPE[c["rs"]])
                 rvals = [F(float(v)) for v in rarr.ravel().tolist()]
         special = None
+        if fam == "inplace" and c["ldt"] == "f4" and c["rdt"] == "f8" and c["rk"] in ("arr", "qty", "nd1") and c["op"] in ("mul", "div") and k % 2 == 1 and not o.get("converted") and not o.get("raises"):
+            # x is float32, y a float64 operand whose magnitude lies outside the float32 range while x op y does not
+            special = "wide"
+            e = 45 if c["op"] == "mul" else -45
+            lvals = [F(10) ** -30 * 3, F(10) ** -30 * 5][:len(lvals)] if len(lvals) <= 2 else lvals
+            rvals = [F(10) ** e * 2, F(10) ** e * 4][:len(rvals)] if len(rvals) <= 2 else rvals
+            larr = np.array([float(v) for v in lvals], dtype=larr.dtype).reshape(larr.shape)
+            lvals = [F(float(x)) for x in larr.ravel().tolist()]
+            rarr = np.array([float(v) for v in rvals], dtype=rarr.dtype).reshape(rarr.shape)
         if fam == "kinds" and c["rk"] in ("int", "float") and k % 2 == 1:
             if c["op"] in ("mul", "add", "sub") and c["ldt"] in ("i4", "f4") and c["lu"] % 2 == 0:
                 # a Python number too large for the Array's narrow dtype (the result is computed in 64 bits, as numpy does)
@@ -296,7 +305,11 @@ def run_case(rec, k):
     if fam == "unary":
         lvals, larr = values_for(c["ldt"], c["ls"], k)
         op = c["op"]
-        if op in ("powm1", "powm2", "rdiv2", "rdivf", "rdivnd", "sqrt"):
+        if op == "pow2f" and c["ldt"] == "i4" and k % 2 == 1:
+            # whole-number float exponents do not turn the computation into integer arithmetic: 50000**2.0 is 2.5e9
+            lvals = [F(50000), F(30000), F(-40000), F(46341)][:len(lvals)] if len(lvals) <= 4 else lvals
+            larr = np.array([int(v) for v in lvals], dtype=larr.dtype).reshape(larr.shape)
+        if op in ("powm1", "powm1f", "powm2", "rdiv2", "rdivf", "rdivnd", "sqrt"):
             lvals = [abs(v) if v != 0 else F(2) for v in lvals]
             roots = list(lvals)
             if op == "sqrt":
@@ -307,7 +320,7 @@ def run_case(rec, k):
         a = A(larr, unit=UNITSTR[lu])
         sa = snapshot(a)
         nd = np.array([2.0, 4.0]) if c["ls"] != "s0" and SHAPE[c["ls"]][-1] == 2 else np.array(2.0)
-        fn = {"neg": lambda: -a, "pow2": lambda: a ** 2, "pow2nd": lambda: (a ** np.array(2) if k % 2 else np.power(a, np.array(2))), "pow3": lambda: a ** 3, "pow2q": lambda: a ** (2 * osyris.units("dimensionless")), "pow2s": lambda: a ** A(0.02, unit="m/cm"), "pow3a": lambda: a ** A(3.0 if k % 2 else 3),
+        fn = {"neg": lambda: -a, "pow2": lambda: a ** 2, "pow2nd": lambda: (a ** np.array(2) if k % 2 else np.power(a, np.array(2))), "pow3": lambda: a ** 3, "pow2f": lambda: a ** 2.0, "powm1f": lambda: a ** -1.0, "pow2q": lambda: a ** (2 * osyris.units("dimensionless")), "pow2s": lambda: a ** A(0.02, unit="m/cm"), "pow3a": lambda: a ** A(3.0 if k % 2 else 3),
               "powdim": lambda: a ** A(2.0, unit="s"), "raddnd": lambda: (nd + a if k % 2 else np.float64(2.0) + a), "rsubnd": lambda: (nd - a if k % 2 else np.float64(2.0) - a),
               "rltnd": lambda: (nd < a if k % 2 else np.float64(2.0) < a), "pow0": lambda: a ** 0, "powm1": lambda: a ** -1, "powm2": lambda: a ** -2,
               "sqrt": lambda: (a ** 0.5 if k % 2 else np.sqrt(a)), "rmul2": lambda: 2 * a, "rmulf": lambda: 0.5 * a, "rdiv2": lambda: 2 / a, "rdivf": lambda: 0.5 / a,
@@ -325,7 +338,7 @@ def run_case(rec, k):
         ndv = [F(2), F(4)] if nd.shape else [F(2)]
         n = len(lvals)
         ndb = [ndv[i % len(ndv)] for i in range(n)]
-        exp = {"neg": [-v for v in lvals], "pow2": [v ** 2 for v in lvals], "pow2nd": [v ** 2 for v in lvals], "pow3": [v ** 3 for v in lvals], "pow2q": [v ** 2 for v in lvals], "pow2s": [v ** 2 for v in lvals], "pow3a": [v ** 3 for v in lvals], "powdim": None, "raddnd": None, "rsubnd": None, "rltnd": None, "pow0": [F(1)] * n,
+        exp = {"neg": [-v for v in lvals], "pow2": [v ** 2 for v in lvals], "pow2nd": [v ** 2 for v in lvals], "pow3": [v ** 3 for v in lvals], "pow2f": [v ** 2 for v in lvals], "powm1f": [1 / v for v in lvals] if op == "powm1f" else None, "pow2q": [v ** 2 for v in lvals], "pow2s": [v ** 2 for v in lvals], "pow3a": [v ** 3 for v in lvals], "powdim": None, "raddnd": None, "rsubnd": None, "rltnd": None, "pow0": [F(1)] * n,
                "powm1": [1 / v for v in lvals] if op == "powm1" else None, "powm2": [1 / v ** 2 for v in lvals] if op == "powm2" else None,
                "sqrt": roots if op == "sqrt" else None, "rmul2": [2 * v for v in lvals], "rmulf": [v / 2 for v in lvals],
                "rdiv2": [2 / v for v in lvals] if op == "rdiv2" else None, "rdivf": [F(1, 2) / v for v in lvals] if op == "rdivf" else None,
